@@ -415,7 +415,11 @@ def _write(case, td):
     import yaml
     isa = os.path.join(td, case.get('isa_file', 'isa.yaml'))
     with open(isa, 'w') as f:
-        f.write(yaml.safe_dump(case['doc'], default_flow_style=False, sort_keys=False))
+        if isa.endswith('.json'):
+            import json as _json
+            f.write(_json.dumps(case['doc'], indent=1))
+        else:
+            f.write(yaml.safe_dump(case['doc'], default_flow_style=False, sort_keys=False))
     src = os.path.join(td, 'main.asm')
     with open(src, 'w') as f:
         f.write(case.get('source', SOURCE))
@@ -520,7 +524,10 @@ def gen_gate_cases(rng, tier):
     for s in fixed + [gen_version(rng, near=rng.choice([RUNNING, MIN_SUPPORTED, None])) for _ in range(n)]:
         d = copy.deepcopy(base)
         d['general']['min_version'] = s
-        out.append({'doc': d, 'version': s, 'cli': False})
+        c = {'doc': d, 'version': s, 'cli': False}
+        if len(out) % 3 == 1:
+            c['isa_file'] = 'isa.json'           # the same definition written as JSON
+        out.append(c)
     return out
 
 
